@@ -206,8 +206,8 @@ Proof.
   f_equal. f_equal. unfold copy_phase. destruct (h_copy h); auto. apply copy_items_fops.
 Qed.
 
-Definition post_ops (c : cfg) (h : hdr) (o : output) (cur3 : fs) (lv tv : list string) : list op :=
-  let ops4 := tag_ops c o lv tv in
+Definition post_ops (v : variant) (c : cfg) (h : hdr) (o : output) (cur3 : fs) (lv tv : list string) : list op :=
+  let ops4 := tag_ops v c o lv tv cur3 in
   ops4 ++ write_files (run_ops ops4 cur3) (out_files c h o) ++ meta_ops h o.
 
 (* the tag values the write phase works with: handed over (read before the first mutation), or read here *)
@@ -223,7 +223,7 @@ Lemma write_phase_unfold : forall v c h o tags cur,
   let pre := pre_ops (v_cert_atomic v) c h cur in
   let cur3 := run_ops pre cur in
   match tags_at c tags cur3 with
-  | (Some lv, Some tv) => (pre ++ post_ops c h o cur3 lv tv, RDone)
+  | (Some lv, Some tv) => (pre ++ post_ops v c h o cur3 lv tv, RDone)
   | _ => (pre, RTagErr)
   end.
 Proof.
@@ -235,9 +235,16 @@ Proof.
   rewrite <- !app_assoc. reflexivity.
 Qed.
 
-Lemma post_ops_fops : forall c h o cur cur' lv tv, fops (post_ops c h o cur lv tv) = fops (post_ops c h o cur' lv tv).
+Lemma tag_ops_agree : forall v c o lv tv cur cur',
+  file_at cur (tick_path c) = file_at cur' (tick_path c) -> tag_ops v c o lv tv cur = tag_ops v c o lv tv cur'.
+Proof. intros v c o lv tv cur cur' H. unfold tag_ops, tick_refresh_ops. rewrite H. reflexivity. Qed.
+
+Lemma post_ops_fops : forall v c h o cur cur' lv tv,
+  file_at cur (tick_path c) = file_at cur' (tick_path c) ->
+  fops (post_ops v c h o cur lv tv) = fops (post_ops v c h o cur' lv tv).
 Proof.
-  intros. unfold post_ops. rewrite !fops_app. f_equal. f_equal. apply write_files_fops.
+  intros v c h o cur cur' lv tv Ht. unfold post_ops. rewrite (tag_ops_agree v c o lv tv cur cur' Ht).
+  rewrite !fops_app. f_equal. f_equal. apply write_files_fops.
 Qed.
 
 Lemma read_tag_file_at : forall c cur p,
@@ -269,14 +276,14 @@ Definition tags_of (v : variant) (c : cfg) (h : hdr) (s : fs) : option (option (
 
 Lemma run_startable : forall v c h o s,
   sound v -> startable c h s ->
-  run v c h (Success o) None s =
+  run_core v c h (Success o) None s =
     match tags_of v c h s with
     | Some tg => (dops_of v c h s ++ fst (write_phase v c h o tg (run_ops (dops_of v c h s) s)),
                   snd (write_phase v c h o tg (run_ops (dops_of v c h s) s)))
     | None => ([], RTagErr)
     end.
 Proof.
-  intros v c h o s (Hce & _ & _) [[Hd Hf]|[Hd _]]; unfold run, dops_of, tags_of; rewrite Hd, ?Hf, ?Hce;
+  intros v c h o s (Hce & _ & _) [[Hd Hf]|[Hd _]]; unfold run_core, dops_of, tags_of; rewrite Hd, ?Hf, ?Hce;
     cbn [run_ops app]; unfold build; destruct (v_tags_early v).
   - destruct (early_tag c h true s (load_path c)) as [lv|]; [destruct (early_tag c h true s (tick_path c)) as [tv|]|];
       reflexivity.
@@ -370,7 +377,7 @@ Proof.
   { unfold tags_at. destruct tg as [[lv tv]|]; auto.
     rewrite !read_tag_content, (Hf _ (load_inside c h)), (Hf _ (tick_inside c h)). reflexivity. }
   rewrite Ht in W1. destruct (tags_at c tg k2) as [[lv|] [tv|]]; try discriminate.
-  inversion W1; inversion W2; subst. rewrite !fops_app. f_equal; auto. apply post_ops_fops.
+  inversion W1; inversion W2; subst. rewrite !fops_app. f_equal; auto. apply post_ops_fops. apply Hf. apply tick_inside.
 Qed.
 
 (* C11, first sentence.  Building the same project from two startable trees with the same #static content gives
@@ -380,8 +387,8 @@ Theorem fresh : forall v c h o s1 s2 pl1 pl2 s1' s2',
   sound v ->
   startable c h s1 -> startable c h s2 ->
   (forall p, excepted h p = true -> file_at s1 p = file_at s2 p) ->
-  run v c h (Success o) None s1 = (pl1, RDone) -> exec pl1 s1 = Some s1' ->
-  run v c h (Success o) None s2 = (pl2, RDone) -> exec pl2 s2 = Some s2' ->
+  run_core v c h (Success o) None s1 = (pl1, RDone) -> exec pl1 s1 = Some s1' ->
+  run_core v c h (Success o) None s2 = (pl2, RDone) -> exec pl2 s2 = Some s2' ->
   forall p, inside c h p = true \/ In p (map op_path (filter creates pl1)) ->
   file_at s1' p = file_at s2' p.
 Proof.
@@ -478,12 +485,22 @@ Proof.
   - eapply mkdir_p_additive; eauto.
 Qed.
 
-Lemma post_ops_additive : forall c h o cur lv tv x, In x (post_ops c h o cur lv tv) -> additive x = true.
+Lemma tag_ops_in : forall v c o lv tv cur x, In x (tag_ops v c o lv tv cur) ->
+  exists p, (p = load_path c \/ p = tick_path c) /\ (x = Create p \/ exists ct, x = Write p ct).
 Proof.
-  intros c h o cur lv tv x H. unfold post_ops in H. apply in_app_or in H as [H|H].
-  - unfold tag_ops in H. apply in_app_or in H as [H|H].
-    + destruct H as [<-|[<-|[]]]; reflexivity.
-    + destruct (o_tick o); [|contradiction]. destruct H as [<-|[<-|[]]]; reflexivity.
+  intros v c o lv tv cur x H. unfold tag_ops in H. apply in_app_or in H as [H|H].
+  - exists (load_path c). split; auto. destruct H as [<-|[<-|[]]]; eauto.
+  - exists (tick_path c). split; auto. destruct (o_tick o).
+    + destruct H as [<-|[<-|[]]]; eauto.
+    + destruct (v_tick_refresh v); [|contradiction]. unfold tick_refresh_ops in H.
+      destruct (file_at cur (tick_path c)) as [[b|vs]|]; try contradiction.
+      destruct (strs_eqb vs tv); [contradiction|]. destruct H as [<-|[<-|[]]]; eauto.
+Qed.
+
+Lemma post_ops_additive : forall v c h o cur lv tv x, In x (post_ops v c h o cur lv tv) -> additive x = true.
+Proof.
+  intros v c h o cur lv tv x H. unfold post_ops in H. apply in_app_or in H as [H|H].
+  - apply tag_ops_in in H as (p & _ & [->|[ct ->]]); reflexivity.
   - apply in_app_or in H as [H|H]; [eapply write_files_additive; eauto|].
     unfold meta_ops in H. destruct (h_nometa h); [contradiction|]. destruct H as [<-|[<-|[]]]; reflexivity.
 Qed.
@@ -575,7 +592,7 @@ Proof.
 Qed.
 
 Lemma done_built : forall v c h o s pl r s',
-  sound v -> startable c h s -> run v c h (Success o) None s = (pl, r) -> exec pl s = Some s' ->
+  sound v -> startable c h s -> run_core v c h (Success o) None s = (pl, r) -> exec pl s = Some s' ->
   r <> RTagErr \/ v_tags_early v = false -> built c s'.
 Proof.
   intros v c h o s pl r s' Hv S R E Hr. rewrite (run_startable _ _ _ _ _ Hv S) in R.
@@ -591,8 +608,8 @@ Qed.
 Theorem twice : forall v c h o s pl s' pl' s'',
   sound v ->
   startable c h s -> static_safe c h o = true ->
-  run v c h (Success o) None s = (pl, RDone) -> exec pl s = Some s' ->
-  run v c h (Success o) None s' = (pl', RDone) -> exec pl' s' = Some s'' ->
+  run_core v c h (Success o) None s = (pl, RDone) -> exec pl s = Some s' ->
+  run_core v c h (Success o) None s' = (pl', RDone) -> exec pl' s' = Some s'' ->
   forall p, inside c h p = true \/ In p (map op_path (filter creates pl')) ->
   file_at s'' p = file_at s' p.
 Proof.
@@ -602,7 +619,7 @@ Proof.
   - left. exact B.
   - intros q Hq. rewrite !file_at_node. erewrite (statics_untouched v c h (Success o) None s pl s' q); eauto.
     + intros o0 Ho0. inversion Ho0; subst. exact Hs.
-    + replace pl with (plan v c h (Success o) None s) by (unfold plan; rewrite R; reflexivity).
+    + replace pl with (plan_core v c h (Success o) None s) by (unfold plan_core; rewrite R; reflexivity).
       apply crash_trace_full.
 Qed.
 
@@ -866,13 +883,13 @@ Qed.
 
 Theorem crash_ready : forall v c h out fault s ops k,
   sound v -> c_ns c <> "minecraft" -> ready c h s ->
-  crash_trace (plan v c h out fault s) ops -> exec ops s = Some k -> ready c h k.
+  crash_trace (plan_core v c h out fault s) ops -> exec ops s = Some k -> ready c h k.
 Proof.
   intros v c h out fault s ops k Hv Hmc R Hct He. pose proof Hv as (Hce & _ & _).
   destruct out as [| | |o];
     try (rewrite plan_fixed_nonsuccess in Hct by (auto; intros; discriminate);
          apply crash_trace_nil in Hct; subst ops; simpl in He; inversion He; subst; exact R).
-  unfold plan, run in Hct. rewrite Hce in Hct. destruct (is_dir s (ns_dir c)) eqn:Hd.
+  unfold plan_core, run_core in Hct. rewrite Hce in Hct. destruct (is_dir s (ns_dir c)) eqn:Hd.
   - destruct (is_file s (cert_path c)) eqn:Hf.
     2:{ simpl in Hct. apply crash_trace_nil in Hct. subst ops. simpl in He. inversion He; subst. exact R. }
     assert (B : built c s) by (split; auto).
@@ -893,20 +910,20 @@ Proof.
   - right. right. exact Hc.
 Qed.
 
-(* C11, crash recovery.  Kill the build at any mutation (torn write included) and run it again: either the re-run
+(* C11, crash recovery.  Kill the build at any mutation (torn write included) and run_core it again: either the re-run_core
    is refused and changes nothing, or it produces — at every path inside the deleted folders and every path it
    writes — exactly the files a build from any other startable tree with the same #static content produces
    (in particular from a tree without any JMC-owned file); #static content is as it was. *)
 Theorem crash_recover : forall v c h o fault s ops k,
   sound v ->
   c_ns c <> "minecraft" -> ready c h s -> static_safe c h o = true ->
-  crash_trace (plan v c h (Success o) fault s) ops -> exec ops s = Some k ->
+  crash_trace (plan_core v c h (Success o) fault s) ops -> exec ops s = Some k ->
   (forall p, excepted h p = true -> file_at k p = file_at s p) /\
-  ( run v c h (Success o) None k = ([], RRefused)
+  ( run_core v c h (Success o) None k = ([], RRefused)
     \/ forall pl k' s2 pl2 s2',
-         run v c h (Success o) None k = (pl, RDone) -> exec pl k = Some k' ->
+         run_core v c h (Success o) None k = (pl, RDone) -> exec pl k = Some k' ->
          startable c h s2 -> (forall p, excepted h p = true -> file_at s p = file_at s2 p) ->
-         run v c h (Success o) None s2 = (pl2, RDone) -> exec pl2 s2 = Some s2' ->
+         run_core v c h (Success o) None s2 = (pl2, RDone) -> exec pl2 s2 = Some s2' ->
          forall p, inside c h p = true \/ In p (map op_path (filter creates pl)) -> file_at k' p = file_at s2' p ).
 Proof.
   intros v c h o fault s ops k Hv Hmc R Hs Hct He.
@@ -928,7 +945,7 @@ Inductive hist (v : variant) (c : cfg) (h : hdr) : fs -> fs -> Prop :=
 | hist_refl : forall s, hist v c h s s
 | hist_step : forall s m out fault copy nometa ops m',
     hist v c h s m ->
-    crash_trace (plan v c (mkHdr (h_statics h) (h_overrides h) copy nometa) out fault m) ops ->
+    crash_trace (plan_core v c (mkHdr (h_statics h) (h_overrides h) copy nometa) out fault m) ops ->
     exec ops m = Some m' -> hist v c h s m'.
 
 Lemma ready_hdr : forall c h copy nometa t,
@@ -952,33 +969,33 @@ Definition x_hdr : hdr := mkHdr [] [] None false.
 Definition x_A : output := mkOutput [(["__tick__"], "say t")] [] true "{}".
 Definition x_B : output := mkOutput [(["g"], "say g")] [] false "{}".
 Definition x_empty : fs := TDir [(".", TDir [])].
-Definition x_after_A : fs := run_ops (plan pinned x_cfg x_hdr (Success x_A) None x_empty) x_empty.
+Definition x_after_A : fs := run_ops (plan_core pinned x_cfg x_hdr (Success x_A) None x_empty) x_empty.
 
-Definition x_k : fs := run_ops (firstn 4 (plan pinned x_cfg x_hdr (Success x_B) None x_after_A)) x_after_A.
-Definition x_k' : fs := run_ops (plan pinned x_cfg x_hdr (Success x_B) None x_k) x_k.
-Definition x_fresh : fs := run_ops (plan pinned x_cfg x_hdr (Success x_B) None x_empty) x_empty.
+Definition x_k : fs := run_ops (firstn 4 (plan_core pinned x_cfg x_hdr (Success x_B) None x_after_A)) x_after_A.
+Definition x_k' : fs := run_ops (plan_core pinned x_cfg x_hdr (Success x_B) None x_k) x_k.
+Definition x_fresh : fs := run_ops (plan_core pinned x_cfg x_hdr (Success x_B) None x_empty) x_empty.
 
 Theorem crash_between_rmtrees_refuted_pinned :
   exists j k k' fresh',
-    exec (firstn j (plan pinned x_cfg x_hdr (Success x_B) None x_after_A)) x_after_A = Some k /\
-    run pinned x_cfg x_hdr (Success x_B) None k = (plan pinned x_cfg x_hdr (Success x_B) None k, RDone) /\
-    exec (plan pinned x_cfg x_hdr (Success x_B) None k) k = Some k' /\
-    exec (plan pinned x_cfg x_hdr (Success x_B) None x_empty) x_empty = Some fresh' /\
+    exec (firstn j (plan_core pinned x_cfg x_hdr (Success x_B) None x_after_A)) x_after_A = Some k /\
+    run_core pinned x_cfg x_hdr (Success x_B) None k = (plan_core pinned x_cfg x_hdr (Success x_B) None k, RDone) /\
+    exec (plan_core pinned x_cfg x_hdr (Success x_B) None k) k = Some k' /\
+    exec (plan_core pinned x_cfg x_hdr (Success x_B) None x_empty) x_empty = Some fresh' /\
     file_at fresh' (tick_path x_cfg) = None /\
     file_at k' (tick_path x_cfg) = Some (Tag ["ns:__tick__"]).
 Proof. exists 4, x_k, x_k', x_fresh. vm_compute. repeat split. Qed.
 
 (* the same scenario under the repaired model recovers (all deletions done, nothing written yet) *)
-Definition y_after_A : fs := run_ops (plan fixed x_cfg x_hdr (Success x_A) None x_empty) x_empty.
-Definition y_k : fs := run_ops (firstn 9 (plan fixed x_cfg x_hdr (Success x_B) None y_after_A)) y_after_A.
-Definition y_k' : fs := run_ops (plan fixed x_cfg x_hdr (Success x_B) None y_k) y_k.
-Definition y_fresh : fs := run_ops (plan fixed x_cfg x_hdr (Success x_B) None x_empty) x_empty.
+Definition y_after_A : fs := run_ops (plan_core fixed x_cfg x_hdr (Success x_A) None x_empty) x_empty.
+Definition y_k : fs := run_ops (firstn 9 (plan_core fixed x_cfg x_hdr (Success x_B) None y_after_A)) y_after_A.
+Definition y_k' : fs := run_ops (plan_core fixed x_cfg x_hdr (Success x_B) None y_k) y_k.
+Definition y_fresh : fs := run_ops (plan_core fixed x_cfg x_hdr (Success x_B) None x_empty) x_empty.
 
 Example crash_recovered_fixed :
-    exec (firstn 9 (plan fixed x_cfg x_hdr (Success x_B) None y_after_A)) y_after_A = Some y_k /\
+    exec (firstn 9 (plan_core fixed x_cfg x_hdr (Success x_B) None y_after_A)) y_after_A = Some y_k /\
     is_dir y_k (ns_dir x_cfg) = false /\
-    exec (plan fixed x_cfg x_hdr (Success x_B) None y_k) y_k = Some y_k' /\
-    exec (plan fixed x_cfg x_hdr (Success x_B) None x_empty) x_empty = Some y_fresh /\
+    exec (plan_core fixed x_cfg x_hdr (Success x_B) None y_k) y_k = Some y_k' /\
+    exec (plan_core fixed x_cfg x_hdr (Success x_B) None x_empty) x_empty = Some y_fresh /\
     file_at y_k' (tick_path x_cfg) = None /\ file_at y_fresh (tick_path x_cfg) = None /\
     file_at y_k' ["."; "data"; "ns"; "function"; "g.mcfunction"] = Some (Raw "say g").
 Proof. vm_compute. repeat split. Qed.
@@ -1003,8 +1020,8 @@ Qed.
 Theorem fresh_empty : forall v c h o s pl s' ple e',
   sound v ->
   startable c h s -> (forall p, excepted h p = true -> file_at s p = None) ->
-  run v c h (Success o) None s = (pl, RDone) -> exec pl s = Some s' ->
-  run v c h (Success o) None empty_out = (ple, RDone) -> exec ple empty_out = Some e' ->
+  run_core v c h (Success o) None s = (pl, RDone) -> exec pl s = Some s' ->
+  run_core v c h (Success o) None empty_out = (ple, RDone) -> exec ple empty_out = Some e' ->
   forall p, inside c h p = true \/ In p (map op_path (filter creates pl)) -> file_at s' p = file_at e' p.
 Proof.
   intros v c h o s pl s' ple e' Hv S Hst R E Re Ee p Hp.
@@ -1061,9 +1078,7 @@ Proof.
   destruct (tags_at c tg _) as [[lv|] [tv|]]; cbn [fst] in H; auto.
   apply in_app_or in H as [H|H]; auto.
   unfold post_ops in H. apply in_app_or in H as [H|H].
-  - apply otherpath_cert_safe. unfold tag_ops in H. apply in_app_or in H as [H|H].
-    + destruct H as [<-|[<-|[]]]; simpl; discriminate.
-    + destruct (o_tick o); [|contradiction]. destruct H as [<-|[<-|[]]]; simpl; discriminate.
+  - apply otherpath_cert_safe. apply tag_ops_in in H as (p & [->| ->] & [->|[ct ->]]); simpl; discriminate.
   - apply in_app_or in H as [H|H].
     + apply write_files_shape in H as (p & s & cur' & Hin & Ho).
       destruct (out_files_in _ _ _ _ _ Hin) as [_ Hne].
@@ -1104,9 +1119,9 @@ Proof.
 Qed.
 
 Lemma plan_cert_safe : forall v c h out fault s x,
-  v_cert_atomic v = true -> cert_exclusive c h out = true -> In x (plan v c h out fault s) -> cert_safe c x.
+  v_cert_atomic v = true -> cert_exclusive c h out = true -> In x (plan_core v c h out fault s) -> cert_safe c x.
 Proof.
-  intros v c h out fault s x Ha Hx H. unfold plan, run in H. rewrite Ha in H.
+  intros v c h out fault s x Ha Hx H. unfold plan_core, run_core in H. rewrite Ha in H.
   assert (H0 : In x (if v_cert_early v then make_cert true c s else []) -> cert_safe c x).
   { intro Hin. destruct (v_cert_early v); [|contradiction]. eapply make_cert_cert_safe; eauto. }
   destruct out as [| | |o]; simpl in H; try contradiction.
@@ -1139,11 +1154,11 @@ Qed.
 
 (* C11, torn certificates.  With the certificate written through jmc.txt.tmp + os.replace, at EVERY crash point
    (torn write included) jmc.txt is absent, or exactly what it was before the build, or the complete new text —
-   never a truncated one: the internal names the re-run reads from it are those of the killed build.
+   never a truncated one: the internal names the re-run_core reads from it are those of the killed build.
    [cert_exclusive]: neither #copy nor an emitted file lands on jmc.txt. *)
 Theorem crash_cert_whole : forall v c h out fault s ops k,
   v_cert_atomic v = true -> cert_exclusive c h out = true ->
-  crash_trace (plan v c h out fault s) ops -> exec ops s = Some k ->
+  crash_trace (plan_core v c h out fault s) ops -> exec ops s = Some k ->
   file_at k (cert_path c) = file_at s (cert_path c) \/ file_at k (cert_path c) = None \/
   file_at k (cert_path c) = Some (Raw (c_cert c)).
 Proof.
@@ -1162,27 +1177,27 @@ Definition z_cfg : cfg := mkCfg "ns" "function" "LOAD=__load__
 PRIVATE=__private__" "__load__" "__tick__".
 
 Theorem torn_cert_refuted_fixed :
-  exists ops k, crash_trace (plan fixed z_cfg x_hdr (Success x_B) None x_empty) ops /\
+  exists ops k, crash_trace (plan_core fixed z_cfg x_hdr (Success x_B) None x_empty) ops /\
     exec ops x_empty = Some k /\ cert_exclusive z_cfg x_hdr (Success x_B) = true /\
     file_at k (cert_path z_cfg) = Some (Raw "LOAD=__load__
 PRIVATE=__priv").
 Proof.
-  exists (firstn 3 (plan fixed z_cfg x_hdr (Success x_B) None x_empty) ++
+  exists (firstn 3 (plan_core fixed z_cfg x_hdr (Success x_B) None x_empty) ++
           [Write (cert_path z_cfg) (Raw "LOAD=__load__
 PRIVATE=__priv")]).
   eexists. split; [|split; [vm_compute; reflexivity|split; vm_compute; reflexivity]].
   eapply ct_torn. vm_compute. reflexivity.
 Qed.
 
-(* the same kill under [hardened] tears jmc.txt.tmp; jmc.txt does not exist yet and the re-run is refused *)
+(* the same kill under [hardened] tears jmc.txt.tmp; jmc.txt does not exist yet and the re-run_core is refused *)
 Example torn_tmp_hardened :
-  exists ops k, crash_trace (plan hardened z_cfg x_hdr (Success x_B) None x_empty) ops /\
+  exists ops k, crash_trace (plan_core hardened z_cfg x_hdr (Success x_B) None x_empty) ops /\
     exec ops x_empty = Some k /\
     file_at k (cert_tmp z_cfg) = Some (Raw "LOAD=__load__
 PRIVATE=__priv") /\ file_at k (cert_path z_cfg) = None /\
-    run hardened z_cfg x_hdr (Success x_B) None k = ([], RRefused).
+    run_core hardened z_cfg x_hdr (Success x_B) None k = ([], RRefused).
 Proof.
-  exists (firstn 3 (plan hardened z_cfg x_hdr (Success x_B) None x_empty) ++
+  exists (firstn 3 (plan_core hardened z_cfg x_hdr (Success x_B) None x_empty) ++
           [Write (cert_tmp z_cfg) (Raw "LOAD=__load__
 PRIVATE=__priv")]).
   eexists. split; [|split; [vm_compute; reflexivity|repeat split; vm_compute; reflexivity]].
@@ -1190,18 +1205,18 @@ PRIVATE=__priv")]).
 Qed.
 
 (* C11, crash recovery including the certificate: [crash_recover], and — when jmc.txt is written atomically — the
-   certificate the re-run's front end reads is absent, the one the killed build read, or the complete one it wrote
-   (so the re-run compiles with the same internal names: the [c] and [o] of the statement are indeed the same). *)
+   certificate the re-run_core's front end reads is absent, the one the killed build read, or the complete one it wrote
+   (so the re-run_core compiles with the same internal names: the [c] and [o] of the statement are indeed the same). *)
 Theorem crash_recover_cert : forall v c h o fault s ops k,
   sound v ->
   c_ns c <> "minecraft" -> ready c h s -> static_safe c h o = true ->
-  crash_trace (plan v c h (Success o) fault s) ops -> exec ops s = Some k ->
+  crash_trace (plan_core v c h (Success o) fault s) ops -> exec ops s = Some k ->
   (forall p, excepted h p = true -> file_at k p = file_at s p) /\
-  ( run v c h (Success o) None k = ([], RRefused)
+  ( run_core v c h (Success o) None k = ([], RRefused)
     \/ forall pl k' s2 pl2 s2',
-         run v c h (Success o) None k = (pl, RDone) -> exec pl k = Some k' ->
+         run_core v c h (Success o) None k = (pl, RDone) -> exec pl k = Some k' ->
          startable c h s2 -> (forall p, excepted h p = true -> file_at s p = file_at s2 p) ->
-         run v c h (Success o) None s2 = (pl2, RDone) -> exec pl2 s2 = Some s2' ->
+         run_core v c h (Success o) None s2 = (pl2, RDone) -> exec pl2 s2 = Some s2' ->
          forall p, inside c h p = true \/ In p (map op_path (filter creates pl)) -> file_at k' p = file_at s2' p ) /\
   ( v_cert_atomic v = true -> cert_exclusive c h (Success o) = true ->
     file_at k (cert_path c) = file_at s (cert_path c) \/ file_at k (cert_path c) = None \/
